@@ -650,7 +650,10 @@ class Report:
                   wall_s=round(time.time() - self.t0, 2), violations=len(self.violations),
                   known_findings=[k for k, _ in self.known_hits], repo=repo_state(), notes=self.notes)
         os.makedirs(os.path.join(VERIF, "evidence"), exist_ok=True)
-        with open(os.path.join(VERIF, "evidence", "%s.json" % self.pid), "w") as f:
+        # a replay is not a check of the property: its record goes to work/, evidence/ keeps the last quick/thorough run
+        evpath = (os.path.join(WORK, "%s.replay-evidence.json" % self.pid) if getattr(self, "is_replay", False)
+                  else os.path.join(VERIF, "evidence", "%s.json" % self.pid))
+        with open(evpath, "w") as f:
             json.dump(ev, f, indent=1, default=str)
         for key, text in self.known_hits:
             print("KNOWN-FINDING: property=%s %s %s" % (self.pid, key, text))
